@@ -80,7 +80,7 @@ Print Assumptions run_C17_is_fresh.
    value run_on records for it is the leniency that command has in the current state (was_lenient). *)
 Theorem help_target_is_pick : forall a toks,
   help_target a toks =
-  (do t <- help_pick a toks; let '(c, pth, _) := t in do x <- parse (b_fmt c) true (strip_help toks); Ok pth).
+  (do t <- help_pick a toks; let '(c, pth, _) := t in do x <- help_lenient (b_fmt c) (strip_help toks); Ok pth).
 Proof. exact AppStateRestoreLemmas.help_target_is_pick. Qed.
 Print Assumptions help_target_is_pick.
 
